@@ -149,6 +149,33 @@ PROPS.update({
     },
 })
 
+PROPS.update({
+    "C06": {
+        "level_text": "Fault enumeration with memory monitors: the shape-exhaustive enumeration of the safe API (encode, stripe incl. buffer-reuse/clone/configure histories, f32 and u8 scoring with every backend and dispatcher arm, max/argmax/threshold, scanner, sampler, dense-matrix histories) is executed under AddressSanitizer (every instrumented load/store incl. vmovdqu/vmovntdq), under valgrind memcheck (gather instructions that ASan does not instrument), in an overflow/alignment-checking build (misaligned raw-pointer dereferences panic) and in the release build (vmovdqa/vmovntps fault on misalignment). Any monitor report is attributed to its case through a breadcrumb, confirmed by replaying that case alone twice, and the shard is resumed after it.",
+        "level_note": "Trusted: ASan / valgrind / rustc's debug alignment checks as oracles. Over-reads that stay inside the same allocation are legal by the property and invisible by construction. NEON not executed. Uninitialised-value use is not part of the statement and is not flagged (valgrind --undef-value-errors=no).",
+        "technique": "bounded-exhaustive enumeration of shapes x backends x call histories executed under memory monitors (ASan, valgrind, alignment checks) with breadcrumb attribution",
+        "level": "fault_enumeration",
+        "profiles": ["rel", "chk"],
+        "monitors": {
+            "quick": [
+                {"name": "asan", "variant": "asan"},
+                {"name": "chk", "variant": "chk"},
+                {"name": "rel", "variant": "rel"},
+                {"name": "valgrind", "variant": "rel", "only": "gather,maxima,score_u8"},
+            ],
+            "thorough": [
+                {"name": "asan", "variant": "asan"},
+                {"name": "chk", "variant": "chk"},
+                {"name": "rel", "variant": "rel"},
+                {"name": "valgrind", "variant": "rel", "only": "gather,maxima,score_u8,score,scan,sample,stripe_histories,dense,encode_v,stripe_v"},
+            ],
+        },
+        "wall": {"quick": 200, "thorough": 3000},
+        "rule": "One evaluation = one API call sequence on one shape under one monitor; non-trivial = non-empty input; the same enumeration is repeated under each monitor, so distinct cases = evaluations of one monitor.",
+        "assumptions": COMMON_ASSUMPTIONS + ["a monitor report is attributed to the case named in the breadcrumb written immediately before the case starts"],
+    },
+})
+
 # properties not claimed (with reason); kept current as checks are added
 NOT_APPLICABLE = [
     {"property_id": p, "reason": "check not built yet in this round (planned in DESIGN.md section 2); not claimed until its harness exists"}
